@@ -18,7 +18,7 @@ def run(ctx):
     mz = _load("_minimize")
     b = ctx.build("")
     mz.r1(ctx, th)
-    mz.r3(ctx, th, b, "default", "C19")
+    ctx.parallel([lambda: mz.r3(ctx, th, b, "default", "C19"), lambda: mz.r3_reuse(ctx, th, b, "C19")], width=2)
     if os.path.exists(os.path.join(HERE, "C19_lp.py")):
         _load("C19_lp").run_lp(ctx)
     if os.path.exists(os.path.join(HERE, "C19_ls.py")):
@@ -29,9 +29,13 @@ def run(ctx):
         "F = f(X), 'X was evaluated' and 'no worse than the initial point' are logging-boundary predicates computed "
         "by the harness from the values the real run produced (bit comparisons), the specification says when they must hold",
         "'reaches the minimiser to tolerance' is not covered (no real arithmetic in TLA+)",
+        "'the reported gradient is the gradient at the reported X' is a logging-boundary predicate as well: the harness's objective "
+        "wrapper remembers, per run, the gradient it returned for each point (bit comparison); histories that reuse one Method value "
+        "(harness/internal/optim/reuse.go) judge every run on its own - evaluated points, counters and the start value are those of that run",
     ]
     return ctx.finish(
-        rule="one trace = one real Minimize run (method x termination cause x Concurrent) validated against the protocol "
+        rule="one trace = one real Minimize run (method x termination cause x Concurrent; in the reuse histories: one of the 2-3 runs made "
+             "with one Method value, the first stopped by one budget at one small count) validated against the protocol "
              "model and the result-coherence conditions; line search: one trace = one real LinesearchMethod run validated against LineSearch.tla, one case = one TLC behaviour replayed into LinesearchMethod / FunctionConverge; LP: one case = one integer LP classified exactly by the spec",
         exhaustive=False)
 
